@@ -100,7 +100,10 @@ class St:
         return Ref(i)
 
     def get(self, ref):
-        return self.store[ref.id]
+        e = self.store[ref.id]
+        if e.kind == "dict" and e.owner is not None:
+            e.items = self.store[e.owner.id].attrs  # obj.__dict__ is a live view: reads and writes go to the object
+        return e
 
     @property
     def frame(self):
@@ -1889,12 +1892,33 @@ class Interp:
 
         yield from do(st, 0)
 
+    @staticmethod
+    def _log_only(body):
+        """every statement is an expression statement `runLog.<name>(...)`"""
+        for s in body:
+            if not (isinstance(s, ast.Expr) and isinstance(s.value, ast.Call) and isinstance(s.value.func, ast.Attribute)
+                    and isinstance(s.value.func.value, ast.Name) and s.value.func.value.id == "runLog"):
+                return False
+        return bool(body)
+
     def ex_If(self, node, st):
         for st1, c in list(self.ev(node.test, st)):
             if isinstance(c, Exc):
                 yield st1, ("raise", c.exc)
                 continue
-            for st2, b in self.branch(st1, self.truth(c, st1)):
+            t = self.truth(c, st1)
+            if is_z3(t) and not node.orelse and self._log_only(node.body):
+                # `if cond: runLog.xxx(...)`: when the guarded logging neither raises nor changes the state, both
+                # outcomes of cond continue from the same state - no fork (the arguments are still evaluated once)
+                probe = st1.fork()
+                probe.pc.append(t)
+                outs = list(self.ex_block(node.body, probe))
+                if len(outs) == 1 and outs[0][1] is None and self._same_store(st1, outs[0][0]) \
+                        and all(fa.vars.keys() == fb.vars.keys() and all(fa.vars[k] is fb.vars[k] for k in fa.vars)
+                                for fa, fb in zip(st1.frames, outs[0][0].frames)):
+                    yield st1, None
+                    continue
+            for st2, b in self.branch(st1, t):
                 st2.trail.append((node.lineno, b))
                 yield from self.ex_block(node.body if b else node.orelse, st2)
 
